@@ -25,7 +25,7 @@ func init() {
 		Assumptions: []string{"generated protobuf getters are nil-safe", "stream.Send of a typed-nil response is an (empty) reply, not a panic"},
 		Tech:        "static analysis: path counting between Recv and Send, guarded-by-condition, field typestate nil-guard on SSA (server/go)",
 		NeedU2:      true,
-		Rules:       []func(*Ctx){ruleC19OneReply, ruleC19ProtocolState, ruleC19SessionNil, ruleC19NilSafeDecoding, ruleC19CloseOnExit, ruleC19PartitionVerbatim, nilContradictionRule("C19", true, "github.com/godaddy/asherah/server/go")},
+		Rules:       []func(*Ctx){ruleC19OneReply, ruleC19ProtocolState, ruleC19SessionNil, ruleC19NilSafeDecoding, ruleC19CloseOnExit, ruleC19PartitionVerbatim, ruleC19FreshHandler, nilContradictionRule("C19", true, "github.com/godaddy/asherah/server/go")},
 	})
 }
 
@@ -498,5 +498,43 @@ func ruleC19PartitionVerbatim(c *Ctx) {
 	}
 	if n == 0 {
 		c.bad("server/GetSession-calls", "", "no SessionFactory.GetSession(id) call found in the sidecar")
+	}
+}
+
+// ruleC19FreshHandler: each stream gets a handler of its own with no session yet: streamer.NewHandler returns either the
+// injected factory's handler or a composite literal built in that call whose session field is not set. A handler taken
+// from a pool or a package-level variable carries the previous stream's session into a stream whose get-session was
+// rejected (or never sent).
+func ruleC19FreshHandler(c *Ctx) {
+	u := c.U2
+	c.rule("C19.fresh-handler", "streamer.NewHandler returns, on every path, the injected handlerFactory's handler or a defaultHandler literal allocated in that call with its session field unset; package server keeps no handler in a pool or package-level variable", 1)
+	f := u.Method(pkgServer, "streamer", "NewHandler")
+	if f == nil {
+		c.unresolved("streamer.NewHandler", "method")
+		return
+	}
+	c.FuncsAnalysed[shortName(f)] = true
+	for _, r := range returnsOf(f) {
+		if len(r.Results) != 1 {
+			continue
+		}
+		v := unwrapIface(resolve(returnedValue(r, 0)))
+		ok, why := false, "the handler is "+describeOperand(v)+", not a literal allocated here"
+		switch x := v.(type) {
+		case *ssa.Alloc:
+			if x.Parent() == f && x.Heap {
+				fl := litFields(x)
+				if _, has := fl["session"]; has {
+					why = "the new handler is created with a session already set"
+				} else {
+					ok = true
+				}
+			}
+		case *ssa.Call:
+			if x.Call.IsInvoke() && x.Call.Method.Name() == "NewHandler" {
+				ok = true // injected factory (tests)
+			}
+		}
+		c.check(ok, shortName(f)+"/return", u.ipos(r), "fresh defaultHandler{…} without a session, or the injected factory's handler", why+": a recycled handler keeps the previous stream's session, so a stream whose get-session was rejected encrypts and decrypts as the previous stream's partition")
 	}
 }
